@@ -198,6 +198,69 @@ def generic_neutral(prog, rel):
     return out
 
 
+def _patched_program(prog, patch_path):
+    """Program for a scratch copy of the tree with one patch applied (None if it does not apply)."""
+    import shutil, subprocess, tempfile
+    from .model import Program
+    tmp = tempfile.mkdtemp(prefix="sa_selftest_")
+    try:
+        shutil.copytree(os.path.join(prog.root, "inference"), os.path.join(tmp, "inference"),
+                        ignore=shutil.ignore_patterns("__pycache__"))
+        r = subprocess.run(["patch", "-p1", "-s", "--no-backup-if-mismatch", "-i", patch_path], cwd=tmp, capture_output=True)
+        if r.returncode != 0:
+            return None
+        p2 = Program.load(tmp)
+        p2.root = prog.root          # rules that re-read files use the model's trees, not the path
+        return p2
+    except Exception:
+        return None
+    finally:
+        shutil.rmtree(tmp, ignore_errors=True)
+
+
+def _external(pid, mod, prog, base_fail):
+    import glob
+    out = {"seeded_total": 0, "seeded_missed": [], "neutral_total": 0, "neutral_noisy": [], "skipped": 0}
+    for meta in sorted(glob.glob(os.path.join(VERIF, "seeded", "*", "meta.json"))):
+        try:
+            m = json.load(open(meta))
+        except Exception:
+            continue
+        who = m.get("detected_by", [m.get("breaks_property")])
+        if pid not in who:
+            continue
+        p2 = _patched_program(prog, os.path.join(os.path.dirname(meta), "patch.diff"))
+        if p2 is None:
+            out["skipped"] += 1
+            continue
+        out["seeded_total"] += 1
+        try:
+            res, _, _ = mod.run(p2, "quick")
+            fired = bool(_failing(res) - base_fail)
+        except AnalysisError:
+            fired = False
+        except Exception:
+            fired = False
+        if not fired:
+            out["seeded_missed"].append(m.get("id"))
+    for patch in sorted(glob.glob(os.path.join(VERIF, "neutral", "*", "patch.diff"))):
+        tag = os.path.basename(os.path.dirname(patch))
+        p2 = _patched_program(prog, patch)
+        if p2 is None:
+            out["skipped"] += 1
+            continue
+        out["neutral_total"] += 1
+        try:
+            res, _, _ = mod.run(p2, "quick")
+            if _failing(res) != base_fail:
+                out["neutral_noisy"].append({"refactoring": tag, "reports": str(sorted(_failing(res) - base_fail)[:2])[:300]})
+        except AnalysisError as e:
+            out["neutral_noisy"].append({"refactoring": tag, "reports": f"analysis-error: {e}"[:300]})
+        except Exception as e:
+            out["neutral_noisy"].append({"refactoring": tag, "reports": f"crash: {e!r}"[:300]})
+    return out
+
+
 def run(pid, mod, prog):
     cases = json.load(open(CASES)) if os.path.exists(CASES) else {}
     mine = cases.get(pid, {})
@@ -245,6 +308,14 @@ def run(pid, mod, prog):
         else:
             extra = sorted(_failing(res) - base_fail)[:2] if status == "ok" else status
             noisy.append({"file": rel, "variant": label, "reports": str(extra)[:300]})
+    # ---- committed patches from independent authors: seeded/<id> must be reported, neutral/<id> must change nothing.
+    # Each patch is applied to a scratch copy of the tree under the system temp directory (removed at once); a patch that
+    # no longer applies to the current tree is skipped and counted.
+    ext = _external(pid, mod, prog, base_fail)
+    if ext["seeded_missed"]:
+        info.append(f"SELFTEST {pid}: seeded changes not reported: {ext['seeded_missed']}")
+    if ext["neutral_noisy"]:
+        info.append(f"SELFTEST {pid}: verdict changed on behaviour-preserving refactorings: {ext['neutral_noisy'][:3]}")
     # self-test outcomes describe the checker, not the repository: they are reported as evidence / INFO and
     # never as a violation of the property
     if survivors:
@@ -253,4 +324,7 @@ def run(pid, mod, prog):
         info.append(f"SELFTEST {pid}: verdict changed on {len(noisy)} of {n_total} behaviour-preserving rewrites: {noisy[:3]}")
     return {"obs": obs, "info": info,
             "extra": {"selftest_survivors": survivors[:5], "selftest_noisy_neutral": noisy[:5], "mutants_total": total, "mutants_killed": killed, "neutral_variants_total": n_total,
-                      "neutral_variants_silent": n_silent, "selftest_cases_skipped_anchor_changed": skipped}}
+                      "neutral_variants_silent": n_silent, "selftest_cases_skipped_anchor_changed": skipped,
+                      "seeded_patches_total": ext["seeded_total"], "seeded_patches_reported": ext["seeded_total"] - len(ext["seeded_missed"]),
+                      "refactoring_patches_total": ext["neutral_total"], "refactoring_patches_silent": ext["neutral_total"] - len(ext["neutral_noisy"]),
+                      "patches_skipped_do_not_apply": ext["skipped"]}}
